@@ -10,7 +10,7 @@ import traceback
 
 import vf  # noqa: F401
 from vf.build import build_ufo
-from vf.props.c01 import bounded_font
+from vf.props.c01 import bounded_font, no_glyph_draws_anything
 from vf.ref import render as R
 
 ID = "C12"
@@ -351,6 +351,6 @@ def classify(v, case):
     if v["mech"] == "unexpected_exception" and "tx:" in v["detail"].get("trace", ""):
         combo = v["detail"]["combo"]
         if (combo[2] == 2 and combo[0] >= 2 and combo[1] in (None, "cffsubr")
-                and not any(len(c) > 1 for g in case["ufo"]["glyphs"] for c in g["contours"])):  # no path: tx discards single-point contours
+                and no_glyph_draws_anything(case["ufo"]["glyphs"], case.get("roundTolerance"))):  # no path: tx discards contours whose points all coincide
             return "cffsubr_cff2_all_glyphs_empty"
     return None
